@@ -778,7 +778,7 @@ def driver_roundtrip(ctx: Ctx, loop: steploop.StepLoop, table: List[Any]) -> Lis
     ctx.log(f"round trip: {len(rows)} of {len(table)} enumerated (content, boundary) classes")
     bodies: List[Body] = []
     for n, (cls, mb, sig) in enumerate(rows):
-        variants_per = 1 if ctx.quick else (2 if n % 4 == 0 else 1)
+        variants_per = 1 if ctx.quick else (2 if n % 8 == 0 else 1)
         for v in range(variants_per):
             blen = rng.choice([1, 2, 70]) if (v or rng.random() < 0.4) else (1 if len(mb) == 1 else 2)
             bnd = G.BOUNDARIES[blen]
@@ -807,10 +807,10 @@ def driver_roundtrip(ctx: Ctx, loop: steploop.StepLoop, table: List[Any]) -> Lis
                 apis = list(RAW_APIS) + (["post"] if kind != "mixed" else ["read_decode"])
                 rng.shuffle(apis)
                 mc = min_chunk(bnd.encode())
-                every_cut = (not ctx.quick) and n % 16 == 0          # thorough: every cut around every boundary
-                sessions_for(loop, bd, rng, 4 if ctx.quick else (10 ** 6 if every_cut else 8), every_cut, apis,
+                every_cut = (not ctx.quick) and n % 64 == 0          # thorough: every cut around every boundary
+                sessions_for(loop, bd, rng, 4 if ctx.quick else (10 ** 6 if every_cut else 6), every_cut, apis,
                              [mc, mc + 1, mc + 2, 8192, 2 * mc + 3, max(100, mc + 9)],
-                             cap=8 if ctx.quick else (10 ** 6 if every_cut else 12))
+                             cap=8 if ctx.quick else (10 ** 6 if every_cut else 6))
             bodies.append(bd)
     return bodies
 
@@ -831,7 +831,7 @@ def driver_encodings(ctx: Ctx, loop: steploop.StepLoop, table: List[Any]) -> Lis
     bodies: List[Body] = []
     combos = [("base64", ""), ("quoted-printable", ""), ("", "gzip"), ("", "deflate"), ("base64", "gzip"),
               ("base64", "deflate"), ("quoted-printable", "deflate"), ("binary", ""), ("", "identity")]
-    n = ctx.pick(40, 300)
+    n = ctx.pick(40, 240)
     for k in range(n):
         te, ce = combos[k % len(combos)]
         blen = rng.choice([1, 2, 70])
@@ -869,7 +869,7 @@ def driver_encodings(ctx: Ctx, loop: steploop.StepLoop, table: List[Any]) -> Lis
             apis = ["read", "read_decode", "chunks", "read_decode" if zipped else "chunks_decode", "read_decode", "lines",
                     "read_decode" if zipped else "iter_decode", "release"]
             sessions_for(loop, bd, rng, ctx.pick(3, 40), False, apis, [mc, mc + 1, mc + 3, 8192, 4 * (mc // 4) + 4, max(64, mc + 7)],
-                         cap=ctx.pick(9, 10 ** 6))
+                         cap=ctx.pick(9, 24))
         bodies.append(bd)
     # chunk-wise decoding where the chunk edges are dictated by the network: tiny segments
     for k, (te, content) in enumerate([("base64", b"9\xf4\xe7\x84\x08"), ("base64", bytes(range(40))),
@@ -893,7 +893,7 @@ def driver_encodings(ctx: Ctx, loop: steploop.StepLoop, table: List[Any]) -> Lis
 def driver_nested(ctx: Ctx, loop: steploop.StepLoop, table: List[Any]) -> List[Body]:
     rng = sub_rng(ctx, "nest")
     bodies: List[Body] = []
-    for k in range(ctx.pick(30, 200)):
+    for k in range(ctx.pick(30, 160)):
         ob, ib = rng.choice([("b", "ci"), ("bx", "c"), (G.BOUNDARIES[70], "inner-" + "q" * rng.choice([1, 30])),
                              ("b", "xb"), ("outer", "inner")])
         c1 = G.concretise(rng.choice(table)[0], ib.encode(), 1)
@@ -912,7 +912,7 @@ def driver_nested(ctx: Ctx, loop: steploop.StepLoop, table: List[Any]) -> List[B
         if bd.body:
             mc = max(min_chunk(ob.encode()), min_chunk(ib.encode()))
             sessions_for(loop, bd, rng, ctx.pick(4, 60), False, ["read", "chunks", "lines", "release", "skip", "mix"],
-                         [mc, mc + 1, 8192, max(50, mc + 5)], cap=ctx.pick(8, 10 ** 6))
+                         [mc, mc + 1, 8192, max(50, mc + 5)], cap=ctx.pick(8, 30))
         bodies.append(bd)
     return bodies
 
@@ -993,7 +993,7 @@ def driver_termination(ctx: Ctx, loop: steploop.StepLoop, table: List[Any]) -> L
             bd = input_body(data, bnd, uselen, base.ctype, f"term:{label}", label)
             mc = min_chunk(bnd)
             apis = TERM_APIS if uselen else [a for a in TERM_APIS]
-            n_api = ctx.pick(2, len(apis))
+            n_api = ctx.pick(2, 5)
             for api in rng.sample(apis, n_api):
                 scripts = [("whole", [data] if data else [], False)]
                 if len(data) <= 600 and rng.random() < ctx.pick(0.3, 1.0):
@@ -1009,7 +1009,7 @@ def driver_termination(ctx: Ctx, loop: steploop.StepLoop, table: List[Any]) -> L
             k += 1
         # EOF at every position of the valid body
         positions = G.eof_positions(base.body, bnd, rng, every=not ctx.quick and len(base.body) <= 4000,
-                                    cap=ctx.pick(24, 600))
+                                    cap=ctx.pick(24, 300))
         bd = None
         for j, pos in enumerate(positions):
             if bd is None or bd.nsessions >= 40:
